@@ -79,7 +79,25 @@ def rule_header(facts):
             return flow.show(u)
         def src(u):
             return pat.has_call(u, "read_u8") or pat.has_arg(u)
-        okk = (lc[0] == "Rem" and lc[2] == ("const", 9) and src(lc[1]) and not pat.has_op(lc[1], ("Div", "Rem")) and
+        def tab(u):
+            """the term as a function of its single non-constant leaf (the property byte), for every legal byte"""
+            out = []
+            for v in range(225):
+                seen = set()
+
+                def lf(q, v=v):
+                    seen.add(q)
+                    if len(seen) > 1:
+                        raise pat.NotEvaluable(q)
+                    return v
+                try:
+                    out.append(pat.eval_term(u, lf))
+                except (pat.NotEvaluable, pat.Overflow):
+                    return None
+            return out
+        by_eval = (tab(lc) == [v % 9 for v in range(225)] and tab(lp) == [(v // 9) % 5 for v in range(225)] and
+                   tab(pb) == [v // 45 for v in range(225)])
+        okk = by_eval or (lc[0] == "Rem" and lc[2] == ("const", 9) and src(lc[1]) and not pat.has_op(lc[1], ("Div", "Rem")) and
                lp[0] == "Rem" and lp[2] == ("const", 5) and lp[1][0] == "Div" and lp[1][2] == ("const", 9) and
                not pat.has_op(lp[1][1], ("Div", "Rem")) and
                pb[0] == "Div" and pb[2] == ("const", 5) and pb[1][0] == "Div" and pb[1][2] == ("const", 9) and
@@ -398,16 +416,31 @@ def rule_contexts(facts):
         from engine.flow import PosTerms
         ptl = PosTerms(lit)
         terms = []
-        for blk in lit.blocks:
-            if blk.cleanup:
+
+        def collect(body_, pt_):
+            for blk in body_.blocks:
+                if blk.cleanup:
+                    continue
+                for i, s_ in enumerate(blk.stmts):
+                    if s_.k == "assign" and s_.rv.k in ("binop", "cast"):
+                        terms.append((blk.idx, pt_.at(blk.idx, i).of_rvalue(s_.rv, blk.idx)))
+                if blk.term.k == "switch":
+                    terms.append((blk.idx, pt_.at(blk.idx, None).of_operand(blk.term.discr)))
+                if blk.term.k == "assert" and blk.term.msg.get("kind") == "BoundsCheck":
+                    terms.append((blk.idx, pt_.at(blk.idx, None).of_operand(blk.term.msg["index"])))
+        collect(lit, ptl)
+        # a loop of decode_literal moved into a private helper of the same type (a function today's tree does not have) still
+        # belongs to literal decoding: its steps are looked up as well
+        from engine.mir import _known_functions
+        known_ = _known_functions() or set()
+        for blk in lit.calls():
+            cal = blk.term.callee
+            if cal is None or not cal.target().local:
                 continue
-            for i, s_ in enumerate(blk.stmts):
-                if s_.k == "assign" and s_.rv.k in ("binop", "cast"):
-                    terms.append((blk.idx, ptl.at(blk.idx, i).of_rvalue(s_.rv, blk.idx)))
-            if blk.term.k == "switch":
-                terms.append((blk.idx, ptl.at(blk.idx, None).of_operand(blk.term.discr)))
-            if blk.term.k == "assert" and blk.term.msg.get("kind") == "BoundsCheck":
-                terms.append((blk.idx, ptl.at(blk.idx, None).of_operand(blk.term.msg["index"])))
+            hb_ = facts.by_def.get(cal.target().defk)
+            if hb_ is not None and hb_.name not in known_ and hb_.self_ty is not None and lit.self_ty is not None and \
+                    hb_.self_ty.name == lit.self_ty.name:
+                collect(hb_, PosTerms(hb_))
 
         def ev(t, **kw):
             def leaf(q):
